@@ -165,6 +165,52 @@ fn judge_unary<G: GraphLike + PartialEq>(st: &mut Stats, spec: &DiagSpec, backen
             }
         }
     }
+    // two single-position pluggings in a row (the second index refers to the shortened list): wide diagrams only
+    for side in 0..2 {
+        let wires = if side == 0 { ni } else { no };
+        if wires < 3 {
+            continue;
+        }
+        for i in 0..wires {
+            for j in 0..wires - 1 {
+                for (b1, b2) in [(BasisElem::Z0, BasisElem::X1), (BasisElem::Z1, BasisElem::Z0)] {
+                    let name = if side == 0 { "plug_input" } else { "plug_output" };
+                    let op = json!([format!("{}x2", name), i, j, format!("{:?}", b1), format!("{:?}", b2)]);
+                    if !want_op(&op) {
+                        continue;
+                    }
+                    st.inc("evaluations");
+                    let mut h = g.clone();
+                    match guarded(|| {
+                        if side == 0 {
+                            h.plug_input(i, b1);
+                            h.plug_input(j, b2);
+                        } else {
+                            h.plug_output(i, b1);
+                            h.plug_output(j, b2);
+                        }
+                    }) {
+                        Err(p) => st.violation(Violation { sig: format!("{}x2|panic|{}", name, last_panic_site()), detail: p, witness: wit(op) }),
+                        Ok(()) => {
+                            let mut l1 = vec![BasisElem::SKIP; i];
+                            l1.push(b1);
+                            let t1 = plug_reference(tv, ni, no, side, &l1);
+                            let (ni1, no1) = if side == 0 { (ni - 1, no) } else { (ni, no - 1) };
+                            let mut l2 = vec![BasisElem::SKIP; j];
+                            l2.push(b2);
+                            let want = Tensor::Exact(plug_reference(&t1, ni1, no1, side, &l2));
+                            let got = eval_graph(&h, None);
+                            if !tensors_equal(&got, &want) {
+                                st.violation(Violation { sig: format!("{}x2|wrong-map", name), detail: format!("got {} want {}", got.show(), want.show()), witness: wit(op) });
+                            } else {
+                                st.inc("nontrivial");
+                            }
+                        }
+                    }
+                }
+            }
+        }
+    }
     // identity test
     let op = json!(["is_identity"]);
     if want_op(&op) {
@@ -255,6 +301,49 @@ pub fn run(rep: &mut Report) {
         });
     });
     rep.absorb(&format!("unary D({},{},Phi{})", s, b, phis.len()), "adjoint, plug_inputs/plug_outputs with every list over {Z0,Z1,X0,X1,SKIP} of every length 0..wires, plug_input/plug_output at every position, is_identity", true, None, t0, stats);
+    // wide diagrams: 3 and 4 wires with a different spider on each (any permutation of the open wires is visible),
+    // optionally coupled, and fans; every list, every position, two pluggings in a row
+    {
+        let t0 = Instant::now();
+        let mut fam: Vec<DiagSpec> = vec![];
+        let ph = [(1i16, 4i16), (1, 2), (3, 4), (1, 1)];
+        for k in 3..=4usize {
+            for coupling in 0..3 {
+                for (nin, nout) in [(k, k), (k, 1), (1, k), (k, 0), (0, k)] {
+                    if nin + nout > 6 {
+                        continue;
+                    }
+                    let mut d = DiagSpec::empty();
+                    let w = nin.max(nout);
+                    let sp: Vec<u8> = (0..w).map(|i| d.add(if i % 2 == 0 { 1 } else { 2 }, ph[i % 4])).collect();
+                    for i in 0..nin {
+                        let b = d.add(0, (0, 1));
+                        d.edges.push((b, sp[i % w], i == 1));
+                        d.inputs.push(b);
+                    }
+                    for i in 0..nout {
+                        let b = d.add(0, (0, 1));
+                        d.edges.push((sp[i % w], b, false));
+                        d.outputs.push(b);
+                    }
+                    for i in 0..w - 1 {
+                        if coupling == 1 || (coupling == 2 && i == 0) {
+                            d.edges.push((sp[i], sp[i + 1], true));
+                        }
+                    }
+                    fam.push(d);
+                }
+            }
+        }
+        let stats = sweep(&fam, |st, i, spec| {
+            watch_begin(i as u64, 2);
+            st.inc("cases");
+            judge_unary::<quizx::vec_graph::Graph>(st, spec, "vec", None);
+            judge_unary::<quizx::hash_graph::Graph>(st, spec, "hash", None);
+            watch_end();
+        });
+        rep.absorb("unary on wide diagrams", &format!("{} diagrams with 3 or 4 open wires on a side, a different spider on every wire (uncoupled, chain-coupled, one coupling): every basis list of every length, every single position, every pair of consecutive single-position pluggings", fam.len()), true, None, t0, stats);
+    }
     // binary operations: all ordered pairs
     let (s2, phis2): (usize, Vec<Ph>) = if quick { (1, vec![(0, 1), (1, 4), (1, 1)]) } else { (2, vec![(1, 4), (1, 1)]) };
     let t0 = Instant::now();
